@@ -286,8 +286,8 @@ def ev_chain_single(case, rec):
 
 
 SUBCHECKS = [
-    Sub('ops', gen_ops, ev_ops, chunk=1, floor=80, timeout=1800),
-    Sub('chains', gen_chain, ev_chain_single, chunk=1, floor=1000),
+    Sub('ops', gen_ops, ev_ops, chunk=1, floor=80, timeout=1800, envs=8),
+    Sub('chains', gen_chain, ev_chain_single, chunk=1, floor=1000, envs=6),
 ]
 
 
